@@ -80,8 +80,32 @@ func NewEventSerializer(parentLogger logger.Logger, schema base.LogSchema, confi
 
 // SerializeRecord serializes log records into streams
 func (packer *eventSerializer) SerializeRecord(record *base.LogRecord) base.LogStream {
+	// the preallocated buffer is enough unless fields other than the (truncated) message are abnormally long
+	if maxLength := packer.maxSerializedLength(record); maxLength > len(packer.buffer) {
+		packer.buffer = make([]byte, maxLength)
+	}
 	length := packer.encodeRecord(record, packer.buffer)
 	return packer.buffer[:length]
+}
+
+// maxSerializedLength returns the upper bound of the length of the given log record after serialization
+func (packer *eventSerializer) maxSerializedLength(record *base.LogRecord) int {
+	fields := record.Fields[0:len(packer.fieldMasks)]
+	total := 32 // root array, timestamp, map headers and "environment" key
+	for i, value := range fields {
+		if packer.fieldMasks[i] || len(value) == 0 {
+			continue
+		}
+		maxLength := len(value)
+		if headRewriter := packer.fieldRewriters[i]; headRewriter != nil {
+			maxLength = headRewriter.MaxFieldLength(value, record)
+		}
+		total += len(packer.serializedFieldKeys[i]) + 5 + maxLength
+	}
+	for i, loc := range packer.envFieldLocators {
+		total += len(packer.serializedEnvFieldKeys[i]) + 5 + len(loc.Get(fields))
+	}
+	return total
 }
 
 // encodeRecord encodes the given log record to buffer and returns the end position.
